@@ -423,7 +423,8 @@ def build_call(spec, c, op, ants):
     elif op["form"] == "dict":
         tr = {"global": trig, "extra": extra_flag(c)}
     else:
-        tr = {"global": trig, "perwave": [perwave_flag(c, k) for k in range(nw)]}
+        # the list may be longer than the number of waveforms: the writer only uses the first max_waves values
+        tr = {"global": trig, "perwave": [perwave_flag(c, k) for k in range(nw + (c % 3 if nw else 0))]}
     # rays
     if fault == "noRays":
         paths = pols = None
@@ -456,7 +457,7 @@ def build_call(spec, c, op, ants):
     if isinstance(tr, dict):
         for key, val in tr.items():
             if key != "global":
-                cols.append((key, [bool(val)] * nw if isinstance(val, bool) else [bool(v) for v in val]))
+                cols.append((key, [bool(val)] * nw if isinstance(val, bool) else [bool(v) for v in val][:nw]))
     rec["mc_cols"] = (nw, cols)
     rec["rays"] = [(tuple(ray_tof(c, k, i) if k < rays[i] else 0.0 for i in range(nant)),
                     tuple(ray_kind(c, k, i) if k < rays[i] else "" for i in range(nant)))
@@ -1247,9 +1248,14 @@ def _do_job(arg):
     fn, job = arg
     col = Collector()
     QUIRKS.clear()
+    import time as _t
+    _t0 = _t.time()
     try:
         with tempdir() as d:
             fn(job, col, d)
+        if os.environ.get("VERIF_JOBTIMES") and _t.time() - _t0 > 5:
+            import sys as _s
+            _s.stderr.write("JOBTIME %.1fs %s\n" % (_t.time() - _t0, str({k: (v if not isinstance(v, (dict, list)) else "...") for k, v in job.items()} if isinstance(job, dict) else "chunk")[:200]))
     except Exception:      # noqa: BLE001
         col.note_broken("job crashed: %s: %s" % (str(job)[:300], traceback.format_exc()[-900:]))
     col.quirks = dict(QUIRKS)
@@ -1533,3 +1539,96 @@ def lookup_drain(make):
 
 def lookup_reply(err, evs):
     return "%s | %s" % (err, ";".join(",".join(str(r) for r in ev) for ev in evs))
+
+
+# ---------------------------------------------------------------------------------------------
+# the iteration protocol of ONE open reader: nested / interleaved passes, partially consumed iterators
+def oracle_passes(fn, exp, sr):
+    """every iter(f) / f[a:b:c] is an independent pass over the same stream and `iter(it) is it` continues:
+    -> None or (what, observed, expected).  `exp` = canonical events of the file (sequential pass)."""
+    import itertools
+    n = len(exp)
+    if n == 0:
+        return None
+    cap = n + 3
+
+    def same(got, want, what):
+        why = diff_events(want, got)
+        return None if not why else (what + " (slice_range=%s)" % (sr,), why, "%d events of the sequential pass" % len(want))
+    with Reader(fn, sr) as r:
+        f, mck = r.f, r.mckeys
+        # (1) nested loops: n*n pairs; the outer handle is examined AFTER the inner loop ran
+        outer, pairs = [], 0
+        for i, a in enumerate(f):
+            if i >= cap:
+                return ("outer loop of a nested iteration does not terminate", i, n)
+            inner = []
+            for j, b in enumerate(f):
+                if j >= cap:
+                    return ("inner loop of a nested iteration does not terminate", j, n)
+                inner.append(canon_event(b, mck))
+                pairs += 1
+            bad = same(inner, exp, "inner pass %d of a nested iteration differs from the sequential pass" % i)
+            if bad:
+                return bad
+            outer.append(canon_event(a, mck))
+        bad = same(outer, exp, "outer loop of `for a in f: for b in f:` does not see every event once")
+        if bad:
+            return bad
+        if pairs != n * n:
+            return ("nested iteration visits the wrong number of pairs (slice_range=%s)" % (sr,), pairs, n * n)
+        # (2) next(iter(f)) inside a running loop must neither rewind nor end the outer loop
+        seen = []
+        for i, a in enumerate(f):
+            if i >= cap:
+                return ("loop with next(iter(f)) inside does not terminate", i, n)
+            first = canon_event(next(iter(f)), mck)
+            bad = same([first], exp[:1], "next(iter(f)) inside a running loop is not the first event")
+            if bad:
+                return bad
+            seen.append(canon_event(a, mck))
+        bad = same(seen, exp, "a loop with next(iter(f)) inside does not see every event once")
+        if bad:
+            return bad
+        # (3) two iterators of the same reader advanced alternately, interleaved with f[i] and a slice
+        it1, it2 = iter(f), iter(f)
+        got1, got2 = [], []
+        for k in range(n):
+            e1 = next(it1)
+            _ = canon_event(f[(k * 2) % n], mck)
+            e2 = next(it2)
+            got2.append(canon_event(e2, mck))
+            if n > 1:
+                _ = [canon_event(ev, mck) for ev in f[0:n:2]]
+            got1.append(canon_event(e1, mck))      # examined after the other accesses
+        bad = same(got1, exp, "first of two alternately advanced iterators") or \
+            same(got2, exp, "second of two alternately advanced iterators")
+        if bad:
+            return bad
+        for it in (it1, it2):
+            try:
+                next(it)
+                return ("an exhausted iterator yields another event (slice_range=%s)" % (sr,), "event", "StopIteration")
+            except StopIteration:
+                pass
+        # (4) a partially consumed iterator handed to something that calls iter() on it again
+        for k in sorted({1, n // 2, n}):
+            for label, make in (("iter(f)", lambda: iter(f)), ("f[0:n]", lambda: f[0:n]), ("f[::2]", lambda: f[::2])):
+                want = exp if label != "f[::2]" else exp[::2]
+                it = make()
+                head = [canon_event(ev, mck) for ev in itertools.islice(it, k)]
+                tail = [canon_event(ev, mck) for ev in itertools.islice(iter(it), cap)]
+                bad = same(head + tail, want, "islice(%s, %d) followed by list(it): events duplicated or lost" % (label, k))
+                if bad:
+                    return bad
+                it = make()
+                head = [canon_event(next(it), mck)]
+                tail = []
+                for j, ev in enumerate(it):
+                    if j >= cap:
+                        return ("`next(it)` then `for ev in it` does not terminate (%s)" % label, j, len(want))
+                    tail.append(canon_event(ev, mck))
+                bad = same(head + tail, want, "next(%s) followed by `for ev in it`: events duplicated or lost" % label)
+                if bad:
+                    return bad
+    return None
